@@ -79,6 +79,12 @@ func histPlans(prop, tier string) []histPlan {
 	case "C13":
 		ps = append(ps, histPlan{nsqd.HistCfg{MemQ: 8, MaxMsgs: 3, Chans: 2, Cons: 2, Admin: true}, d - 1})
 		ps = append(ps, histPlan{nsqd.HistCfg{MemQ: 1, MaxBytes: 64, MaxMsgs: 3, Chans: 1, Cons: 1, Admin: true}, d})
+	case "C02":
+		// two consumers on one channel, and one consumer on each of two channels, all
+		// subscribed and ready before the explored part starts
+		ps = append(ps, histPlan{nsqd.HistCfg{MemQ: 8, MaxMsgs: 2, Chans: 1, Cons: 2, Pre: []string{"sub:a:c", "sub:b:c", "rdy:a:1", "rdy:b:1"}}, d - 2})
+		ps = append(ps, histPlan{nsqd.HistCfg{MemQ: 8, MaxMsgs: 2, Chans: 2, Cons: 2, Pre: []string{"sub:a:c", "mkch:d", "sub:b:d", "rdy:a:1", "rdy:b:1"}}, d - 2})
+		ps = append(ps, histPlan{nsqd.HistCfg{MemQ: 0, MaxBytes: 64, MaxMsgs: 2, Chans: 2, Cons: 2, Pre: []string{"sub:a:c", "mkch:d", "sub:b:d", "rdy:a:1", "rdy:b:1"}}, d - 2})
 	default: // C01
 		for _, mq := range []int64{0, 1, 8} {
 			ps = append(ps, histPlan{nsqd.HistCfg{MemQ: mq, MaxBytes: 64, MaxMsgs: 3, Chans: 1, Cons: 1}, d})
@@ -89,16 +95,13 @@ func histPlans(prop, tier string) []histPlan {
 	return ps
 }
 
-func histCheck(prop, tier, level string) int {
-	rep := vx.NewReport(prop, tier, level)
-	rep.Rule = "E3: breadth-first search over event histories (publishes over TCP/HTTP, SUB/RDY/FIN/REQ/TOUCH/CLS/disconnect per consumer, channel creation, pause/unpause, virtual-time advances); every transition replays its history on a fresh real nsqd under the controlled runtime (default schedule, quiescence after each event) in lock-step with a reference ledger; states deduplicated by a canonical key; distinct = distinct canonical states"
-	rep.Assumptions = []string{"default schedule within an event (interleavings are the E1/E2 checks' job)", "virtual time; timeouts judged against the code's own scan/refresh intervals", "canonical key: message states with relative deadlines, consumer states, queue depths, tick phase"}
-	budget := 150 * time.Second
-	if tier == "thorough" {
-		budget = 25 * time.Minute
-	}
-	plans := histPlans(prop, tier)
+// runHistPlans runs the E3 search for each configuration and folds the results into rep,
+// keeping the violations whose clause belongs to prop (and runtime failures).
+func runHistPlans(rep *vx.Report, prop, tier, level string, plans []histPlan, budget time.Duration) {
 	var perCfg []map[string]interface{}
+	if old, ok := rep.Extra["configurations"].([]map[string]interface{}); ok {
+		perCfg = old
+	}
 	for _, p := range plans {
 		sub := vx.NewReport(prop, tier, level)
 		st := vx.BFS("hist", p.cfg, p.depth, time.Now().Add(budget/time.Duration(len(plans))), sub, p.cfg.String())
@@ -130,6 +133,17 @@ func histCheck(prop, tier, level string) int {
 		perCfg = append(perCfg, map[string]interface{}{"config": p.cfg.String(), "depth_completed": st.MaxDepth, "states": st.States, "transitions": st.Transitions, "new_states_per_depth": st.PerDepth, "exhaustive_to_depth": st.Exhaustive, "violations_of_other_properties_seen": other})
 	}
 	rep.Extra["configurations"] = perCfg
+}
+
+func histCheck(prop, tier, level string) int {
+	rep := vx.NewReport(prop, tier, level)
+	rep.Rule = "E3: breadth-first search over event histories (publishes over TCP/HTTP, SUB/RDY/FIN/REQ/TOUCH/CLS/disconnect per consumer, channel creation, pause/unpause, virtual-time advances); every transition replays its history on a fresh real nsqd under the controlled runtime (default schedule, quiescence after each event) in lock-step with a reference ledger; states deduplicated by a canonical key; distinct = distinct canonical states"
+	rep.Assumptions = []string{"default schedule within an event (interleavings are the E1/E2 checks' job)", "virtual time; timeouts judged against the code's own scan/refresh intervals", "canonical key: message states with relative deadlines, consumer states, queue depths, tick phase"}
+	budget := 150 * time.Second
+	if tier == "thorough" {
+		budget = 25 * time.Minute
+	}
+	runHistPlans(rep, prop, tier, level, histPlans(prop, tier), budget)
 	if prop == "C05" {
 		// E1: the shutdown request at every decision point of an overlapping operation
 		var specs []nsqd.MicroSpec
@@ -184,6 +198,11 @@ func histCheck(prop, tier, level string) int {
 					specs = append(specs, nsqd.MicroSpec{State: st, MemQ: mq, Unbuf: un, Ops: []string{"rdydisc1", "scan"}})
 					specs = append(specs, nsqd.MicroSpec{State: st, MemQ: mq, Unbuf: un, Ops: []string{"disc2", "rdy2"}})
 				}
+			}
+		}
+		for _, mq := range []int64{10, 0} {
+			for _, op := range []string{"got2_req2d", "got2_req2", "got2_touch2"} {
+				specs = append(specs, nsqd.MicroSpec{State: "defexp", MemQ: mq, Unbuf: true, Ops: []string{"scan", op}})
 			}
 		}
 		runMicros(rep, specs, 20, false)
